@@ -315,6 +315,69 @@ func RootStmtToGo(rstmt RootStmt) string {
 	}
 }
 
+var frtImportPath = "github.com/karino2/folang/pkg/frt"
+
+func ntpHasValue(cas NameTypePair) bool {
+	return frt.OpNotEqual(cas.Ftype, New_FType_FUnit)
+}
+
+func dsNeedsFrt(ds DefStmt) bool {
+	switch _v5 := (ds).(type) {
+	case DefStmt_DUnionDef:
+		ud := _v5.Value
+		return frt.Pipe(udCases(ud), (func(_r0 []NameTypePair) bool { return slice.Forany(ntpHasValue, _r0) }))
+	case DefStmt_DRecordDef:
+		return false
+	default:
+		panic("Union pattern fail. Never reached here.")
+	}
+}
+
+func rsNeedsFrt(rs RootStmt) bool {
+	switch _v6 := (rs).(type) {
+	case RootStmt_RSDefStmt:
+		ds := _v6.Value
+		return dsNeedsFrt(ds)
+	case RootStmt_RSMultipleDefs:
+		md := _v6.Value
+		return slice.Forany(dsNeedsFrt, md.Defs)
+	default:
+		return false
+	}
+}
+
+func rsIsFrtImport(rs RootStmt) bool {
+	switch _v7 := (rs).(type) {
+	case RootStmt_RSImport:
+		im := _v7.Value
+		return frt.OpEqual(im, frtImportPath)
+	default:
+		return false
+	}
+}
+
+func rsIsPackage(rs RootStmt) bool {
+	switch (rs).(type) {
+	case RootStmt_RSPackage:
+		return true
+	default:
+		return false
+	}
+}
+
+func addFrtImportIfNecessary(rstmts []RootStmt) []RootStmt {
+	return frt.IfElse((slice.Forany(rsNeedsFrt, rstmts) && frt.OpNot(slice.Forany(rsIsFrtImport, rstmts))), (func() []RootStmt {
+		imp := New_RootStmt_RSImport(frtImportPath)
+		return frt.IfElse((slice.IsNotEmpty(rstmts) && rsIsPackage(slice.Head(rstmts))), (func() []RootStmt {
+			return frt.Pipe(frt.Pipe(slice.Tail(rstmts), (func(_r0 []RootStmt) []RootStmt { return slice.PushHead(imp, _r0) })), (func(_r0 []RootStmt) []RootStmt { return slice.PushHead(slice.Head(rstmts), _r0) }))
+		}), (func() []RootStmt {
+			return slice.PushHead(imp, rstmts)
+		}))
+	}), (func() []RootStmt {
+		return rstmts
+	}))
+}
+
 func RootStmtsToGo(rstmts []RootStmt) string {
-	return frt.Pipe(frt.Pipe(slice.Map(RootStmtToGo, rstmts), (func(_r0 []string) string { return strings.Concat("\n\n", _r0) })), (func(_r0 string) string { return strings.AppendTail("\n", _r0) }))
+	return frt.Pipe(frt.Pipe(frt.Pipe(addFrtImportIfNecessary(rstmts), (func(_r0 []RootStmt) []string { return slice.Map(RootStmtToGo, _r0) })), (func(_r0 []string) string { return strings.Concat("\n\n", _r0) })), (func(_r0 string) string { return strings.AppendTail("\n", _r0) }))
 }
